@@ -274,7 +274,31 @@ class Executor:
             return
         line = getattr(node, "lineno", None)
         n = self._n = getattr(self, "_n", 0) + 1
+        if kind == "safety" and what.startswith("IndexError") and self.catch(st, "IndexError", not_(cond)):
+            return
+        top = self.ctx.top_spec
+        if kind == "safety" and what.startswith("IndexError") and top is not None and "IndexError" in top.raises \
+                and not self.ctx.__dict__.get("try_stack"):
+            # the top-level contract allows IndexError: the subscript may fail exactly on paths where the stated
+            # condition holds; execution continues on the others
+            topex = self.ctx.top_exec
+            allowed = topex.eval_spec(top.raises["IndexError"], topex.old_state)
+            self.ctx.oblige(st, "%sraise:IndexError@%s" % (self.tag, self._site(node)), or_(cond, allowed), "raise", line)
+            st.pc = and_(st.pc, cond)
+            return
         self.ctx.oblige(st, "%s%s:%s@%s" % (self.tag, kind, what, self._site(node)), cond, kind, line)
+
+    def catch(self, st, exc, cond):
+        """Inside `try: ... except <exc>:` of THIS function (not of an inlining caller): the paths on which `cond`
+        holds leave the try body for the handler with the current state; `st` continues with the others."""
+        stack = self.ctx.__dict__.setdefault("try_stack", [])
+        if not stack or stack[-1]["ex"] is not self or exc not in stack[-1]["excs"]:
+            return False
+        c = z3.simplify(cond)
+        if not z3.is_false(c):
+            stack[-1]["states"].append(st.copy(and_(st.pc, cond)))
+        st.pc = and_(st.pc, not_(cond))
+        return True
 
     def _site(self, node):
         # position independent of absolute line numbers: offset from the function's first line
@@ -389,11 +413,26 @@ class Executor:
         return vref(r, cls)
 
     # ------------------------------------------------------------------ expressions
+    POLAR_CALLS = ("implies", "old", "all", "any")
+
     def eval(self, node, st):
         m = getattr(self, "e_" + type(node).__name__, None)
         if m is None:
             self.unsupported(node)
-        return m(node, st)
+        # polarity of the position being evaluated inside a contract clause (+1 positive, -1 negative, 0 unknown): only
+        # the Boolean connectives pass it on; it lets a specification function choose between two EQUIVALENT encodings
+        # (see specs/track_model.sf_twf), never what a clause means
+        cur = getattr(self, "pol", 0)
+        self.pol_here = cur
+        keeps = isinstance(node, (ast.BoolOp, ast.IfExp)) or (isinstance(node, ast.UnaryOp) and isinstance(node.op, ast.Not)) or \
+            (isinstance(node, ast.Call) and isinstance(node.func, ast.Name) and node.func.id in self.POLAR_CALLS)
+        if keeps or cur == 0:
+            return m(node, st)
+        self.pol = 0
+        try:
+            return m(node, st)
+        finally:
+            self.pol = cur
 
     def e_Constant(self, node, st):
         v = node.value
@@ -482,9 +521,15 @@ class Executor:
         return Val(NONE, [], py="emptydict")
 
     def e_UnaryOp(self, node, st):
-        v = self.eval(node.operand, st)
         if isinstance(node.op, ast.Not):
+            cur = getattr(self, "pol", 0)
+            self.pol = -cur
+            try:
+                v = self.eval(node.operand, st)
+            finally:
+                self.pol = cur
             return vbool(not_(truth(v)))
+        v = self.eval(node.operand, st)
         if isinstance(node.op, ast.USub):
             if is_intlike(v):
                 return vint(-to_int(v))
@@ -618,7 +663,12 @@ class Executor:
         return res
 
     def e_IfExp(self, node, st):
-        c = truth(self.eval(node.test, st))
+        cur = getattr(self, "pol", 0)
+        self.pol = 0
+        try:
+            c = truth(self.eval(node.test, st))
+        finally:
+            self.pol = cur
         a = self.eval(node.body, st if self.spec_mode else st.copy(and_(st.pc, c)))
         b = self.eval(node.orelse, st if self.spec_mode else st.copy(and_(st.pc, not_(c))))
         return ite(c, a, b)
@@ -802,7 +852,7 @@ class Executor:
                     return and_(*parts) if universal else or_(*parts)
         saved = self.bound
         self.bound = dict(saved)      # never mutate the dict in place: inlined / contracted callees share it
-        vars_, guards = [], []
+        vars_, guards, pats = [], [], []
         try:
             for comp in gen.generators:
                 it = comp.iter
@@ -833,13 +883,32 @@ class Executor:
                 else:
                     raise OutOfSubset("quantifier domain must be range(..), ints, reals, strs or refs(Class)")
                 for cond in comp.ifs:
-                    guards.append(truth(self.eval(cond, st)))
+                    if isinstance(cond, ast.Call) and isinstance(cond.func, ast.Name) and cond.func.id == "pattern":
+                        # `if pattern(t1, t2, ..)`: not a condition - the E-matching trigger of this quantifier (a
+                        # multi-pattern when several terms are given); affects only how the solver instantiates it
+                        for a in cond.args:
+                            v = self.eval(a, st)
+                            pats.append(v.terms[-1])
+                        continue
+                    cur = getattr(self, "pol", 0)
+                    self.pol = 0
+                    try:
+                        guards.append(truth(self.eval(cond, st)))
+                    finally:
+                        self.pol = cur
             body = truth(self.eval(gen.elt, st))
         finally:
             self.bound = saved
         g = and_(*guards)
         if universal:
-            return z3.ForAll(vars_, implies(g, body))
+            import re as _re
+            qid = _re.sub(r"[^A-Za-z0-9_.<>=+-]", "_", ast.unparse(gen))[:70]     # label only (solver statistics)
+            if pats:
+                try:
+                    return z3.ForAll(vars_, implies(g, body), qid=qid, patterns=[z3.MultiPattern(*pats) if len(pats) > 1 else pats[0]])
+                except z3.Z3Exception:
+                    pass        # not a valid pattern (e.g. it does not mention every bound variable): automatic triggers
+            return z3.ForAll(vars_, implies(g, body), qid=qid)
         return z3.Exists(vars_, and_(g, body))
 
     def e_Lambda(self, node, st):
@@ -1076,7 +1145,7 @@ class Executor:
         if not spec.modifies and not spec.fresh and res.terms:
             defs = [str(t) for t in res.terms]
         for e in spec.ensures:
-            self.ctx.assume(st, sub.eval_spec(e[1] if isinstance(e, tuple) else e, post), defs)
+            self.ctx.assume(st, sub.eval_spec(e[1] if isinstance(e, tuple) else e, post, assumed=True), defs)
         st.heap = post.heap
         if self is self.ctx.top_exec and not self.spec_mode and isinstance(node, ast.Call):
             # ghost name for the result of the n-th call (source order) of this callee: ret<n>_<name>, for hints
@@ -1105,6 +1174,10 @@ class Executor:
         """A path raises `exc`: allowed only if the top-level contract says so."""
         if self.spec_mode or z3.is_false(st.pc):
             return
+        stack = self.ctx.__dict__.get("try_stack")
+        if stack and stack[-1]["ex"] is self and exc in stack[-1]["excs"]:
+            stack[-1]["states"].append(st)
+            return
         top = self.ctx.top_spec
         allowed = FALSE
         if top is not None and exc in top.raises:
@@ -1121,18 +1194,20 @@ class Executor:
         finally:
             self.spec_mode = saved
 
-    def eval_spec(self, text, st):
-        """Evaluate a contract clause (a Python expression string, or a callable) to a z3 Bool."""
+    def eval_spec(self, text, st, assumed=False):
+        """Evaluate a contract clause (a Python expression string, or a callable) to a z3 Bool.
+        `assumed`: the formula will only be used as a hypothesis (never as a proof goal)."""
         if callable(text):
             return text(self, st)
-        saved = self.spec_mode
+        saved = self.spec_mode, getattr(self, "pol", 0), getattr(self, "assumed", False)
         self.spec_mode = True
+        self.pol, self.assumed = 1, assumed
         try:
             tree = ast.parse(text.strip(), mode="eval").body
             v = self.eval(tree, st)
             return truth(v)
         finally:
-            self.spec_mode = saved
+            self.spec_mode, self.pol, self.assumed = saved
 
     # ------------------------------------------------------------------ statements
     def exec_block(self, stmts, st):
@@ -1436,16 +1511,38 @@ class Executor:
         return Outcomes(normal=st)
 
     def s_Try(self, node, st):
-        """try: BODY except IndexError: HANDLER  --  BODY is executed with its IndexError-freedom as obligations
-        (every subscript and every contracted call), so the handler is unreachable and is dropped."""
+        """try: BODY except IndexError: HANDLER.  An IndexError raised by a subscript of BODY itself, or by a call of
+        BODY whose contract lists IndexError under `raises`, transfers the state at that point to HANDLER (a raising
+        contracted call leaves the state as it was: its contract is stated for read-only callees).  Code inlined
+        into BODY is not covered: its IndexError-freedom stays an obligation."""
         if node.orelse or node.finalbody:
             self.unsupported(node, "try/else/finally")
-        for h in node.handlers:
-            if not (isinstance(h.type, ast.Name) and h.type.id == "IndexError"):
-                self.unsupported(node, "except clause other than IndexError")
-            self.ctx.dropped.append("%s:%d except IndexError handler (unreachable: IndexError-freedom of the try body is "
-                                    "proved as safety obligations)" % (self.fi.path, h.lineno))
-        return self.exec_block(node.body, st)
+        if len(node.handlers) != 1:
+            self.unsupported(node, "several except clauses")
+        h = node.handlers[0]
+        if not (isinstance(h.type, ast.Name) and h.type.id == "IndexError"):
+            self.unsupported(node, "except clause other than IndexError")
+        stack = self.ctx.__dict__.setdefault("try_stack", [])
+        frame = dict(ex=self, excs={"IndexError"}, states=[])
+        stack.append(frame)
+        try:
+            out = self.exec_block(node.body, st)
+        finally:
+            stack.pop()
+        if not frame["states"]:
+            self.ctx.dropped.append("%s:%d except IndexError handler (unreachable: no subscript or contracted call of the "
+                                    "try body can raise it)" % (self.fi.path, h.lineno))
+            return out
+        es = None
+        for x in frame["states"]:
+            es = merge(es, x)
+        ho = self.exec_block(h.body, es)
+        res = Outcomes()
+        res.normal = merge(out.normal, ho.normal)
+        res.brk = merge(out.brk, ho.brk)
+        res.cont = merge(out.cont, ho.cont)
+        res.ret = merge(out.ret, ho.ret)
+        return res
 
     # --- loops
     def s_For(self, node, st):
